@@ -4,8 +4,14 @@ Every table is the evaluation of an expression (or the execution of a statement)
 finite range of its inputs: the index arithmetic `(i + 1) % 4`, `i + 4`, `corner - 4`, `(index + 3) % 4`, the guards
 `corner < 0 or corner > 3`, literal tuples `(1, 2, 3, 0)`, `["bottom", "left", "front"]`, the order of the statements of
 `Operation.project_side`, the construction loop of `tools.edge_map`.  No logic of its own: the translator only finds
-the node (by function name and shape) and lets python evaluate it.  If the source no longer has the shape the
-translator looks for, table generation fails (red run, failing-input search).
+the node (by function name and shape) and lets python evaluate it.
+
+Round 6b.  (1) Plain value tables come first (`c10OrientOrder` is the only one a *model* file names); every `ast` group
+runs inside its own `emit.guard`, so a group that no longer finds the shape it looks for loses its own tables only.
+(2) Nothing depends on the *names* of parameters and locals, on docstrings, comments, annotations or report / print
+statements: parameters are taken by position, locals by the shape of the statement that defines them, the tables hold
+evaluated values and attribute paths only.  Renaming a local or annotating an assignment leaves TC10.lean byte-identical;
+a changed operator, constant, index expression or statement order changes it.
 """
 
 from __future__ import annotations
@@ -13,7 +19,7 @@ from __future__ import annotations
 import ast
 import inspect
 import textwrap
-from typing import Any, Dict, List
+from typing import Any, Dict, Iterator, List, Tuple
 
 
 def _fn(obj) -> ast.FunctionDef:
@@ -23,26 +29,46 @@ def _fn(obj) -> ast.FunctionDef:
     return node
 
 
+def _param(fn: ast.FunctionDef, k: int) -> str:
+    """name of the k-th parameter (0 = self)"""
+    return fn.args.args[k].arg
+
+
 def _ev(node: ast.AST, env: Dict[str, Any]) -> Any:
     return eval(compile(ast.Expression(body=node), "<source>", "eval"), {"__builtins__": {"abs": abs, "min": min, "max": max}}, dict(env))
 
 
 def _attr_path(node: ast.AST) -> str:
-    """`self.top_face.points` -> "top_face.points" """
+    """`self.top_face.points` -> "top_face.points" (a leading local name is not part of the path)"""
     parts: List[str] = []
     while isinstance(node, ast.Attribute):
         parts.append(node.attr)
         node = node.value
-    if isinstance(node, ast.Name) and node.id != "self":
-        parts.append(node.id)
     return ".".join(reversed(parts))
 
 
-def _assign_to(body, name: str) -> ast.Assign:
-    for st in body:
-        if isinstance(st, ast.Assign) and isinstance(st.targets[0], ast.Name) and st.targets[0].id == name:
-            return st
-    raise AssertionError(f"no assignment to {name}")
+def _is_report(st: ast.stmt) -> bool:
+    """docstrings, print / report / warnings.warn statements: not seen by the translator"""
+    if isinstance(st, ast.Expr) and isinstance(st.value, ast.Constant):
+        return True
+    if isinstance(st, ast.Expr) and isinstance(st.value, ast.Call):
+        f = st.value.func
+        name = f.id if isinstance(f, ast.Name) else f.attr if isinstance(f, ast.Attribute) else ""
+        return name in ("print", "report", "warn")
+    return False
+
+
+def _body(stmts) -> List[ast.stmt]:
+    return [st for st in stmts if not _is_report(st)]
+
+
+def _assigns(stmts) -> Iterator[Tuple[ast.expr, ast.expr, ast.stmt]]:
+    """(target, value, statement) of plain and annotated assignments"""
+    for st in stmts:
+        if isinstance(st, ast.Assign) and len(st.targets) == 1:
+            yield st.targets[0], st.value, st
+        elif isinstance(st, ast.AnnAssign) and st.value is not None:
+            yield st.target, st.value, st
 
 
 def _first_raise_guard(fn: ast.FunctionDef) -> ast.expr:
@@ -50,6 +76,16 @@ def _first_raise_guard(fn: ast.FunctionDef) -> ast.expr:
         if isinstance(st, ast.If) and any(isinstance(b, ast.Raise) for b in st.body):
             return st.test
     raise AssertionError(f"no guard in {fn.name}")
+
+
+def _range_of(loop: ast.For) -> range:
+    assert isinstance(loop.iter, ast.Call) and loop.iter.func.id == "range"
+    return range(*[ast.literal_eval(a) for a in loop.iter.args])
+
+
+def _loop_var(loop: ast.For) -> str:
+    t = loop.target
+    return t.id if isinstance(t, ast.Name) else t.elts[0].id
 
 
 def emit_all(emit) -> None:
@@ -67,230 +103,276 @@ def emit_all(emit) -> None:
     from classy_blocks.util import constants, tools
     from classy_blocks.util.frame import Frame
 
-    # ---------------------------------------------------------------- orient order, inward sides
+    # ================================================================ value tables (no ast; the model may name these)
     emit("c10OrientOrder", "List String", list(get_args(OrientType)), "typing.get_args(OrientType): the order of Operation.get_all_faces()")
 
-    nf = _fn(Operation.get_normal_face)
-    orients = None
-    for st in ast.walk(nf):
-        if isinstance(st, (ast.Assign, ast.AnnAssign)):
-            tgt = st.targets[0] if isinstance(st, ast.Assign) else st.target
-            if isinstance(tgt, ast.Name) and tgt.id == "orients":
-                orients = ast.literal_eval(st.value)
-    assert orients is not None
-    emit("c10NormalFaceInverted", "List String", list(orients), "Operation.get_normal_face: the literal list of sides it inverts")
-    # the subscript of the returned face list: argmax (first maximum)
-    ret = [st for st in nf.body if isinstance(st, ast.Return)][0]
-    emit("c10NormalFacePick", "String", ret.value.slice.func.attr, "Operation.get_normal_face returns face_list[np.<this>(dotps)]")
-    cs = _fn(Operation.get_closest_side)
-    ret = [st for st in cs.body if isinstance(st, ast.Return)][0]
-    emit("c10ClosestSidePick", "String", ret.value.slice.func.attr, "Operation.get_closest_side returns sides[np.<this>(centers)]")
+    def values_tools() -> None:
+        rows = []
+        for c1 in range(8):
+            for c2 in range(8):
+                try:
+                    rows.append((c1, c2, int(tools.EdgeLocation(c1, c2, "bottom").start_corner)))
+                except CornerPairError:
+                    rows.append((c1, c2, -1))
+        emit("c10StartCorner", "List (Nat × Nat × Int)", rows, "EdgeLocation(c1, c2).start_corner for all 64 pairs (-1 = CornerPairError)")
+        emit("c10FrameValidPairs", "List (List Nat)", [sorted(p) for p in Frame.valid_pairs], "Frame.valid_pairs (sorted members)")
 
-    ci = _fn(connector_mod.Connector.__init__)
-    inv = [list(ast.literal_eval(n.comparators[0])) for n in ast.walk(ci) if isinstance(n, ast.Compare) and isinstance(n.ops[0], ast.In)]
-    emit("c10ConnectorInverted", "List (List String)", inv, "Connector.__init__: the literal tuples `orient in (...)` of sides it inverts (operation 1, operation 2)")
-    sl = [n for n in ast.walk(ci) if isinstance(n, ast.Subscript) and isinstance(n.slice, ast.Slice)]
-    emit("c10ConnectorKeep", "Nat", int(ast.literal_eval(sl[0].slice.upper)), "Connector.__init__: all_pairs[:<this>] after sorting by distance")
+    emit.guard(values_tools)
 
-    # ---------------------------------------------------------------- which table get_face / Side use
-    uses = []
-    for label, obj in (("Operation.get_face", Operation.get_face), ("Side.__init__", Side.__init__)):
-        for n in ast.walk(_fn(obj)):
-            if isinstance(n, ast.Subscript) and isinstance(n.value, ast.Attribute) and isinstance(n.value.value, ast.Name) and n.value.value.id == "constants":
-                uses.append((label, n.value.attr))
-    emit("c10FaceTableUse", "List (String × String)", uses, "the table of util.constants that Operation.get_face / items.side.Side index by side name")
+    # ================================================================ ast groups, each on its own
+    def normal_face() -> None:
+        nf = _fn(Operation.get_normal_face)
+        lits = [
+            ast.literal_eval(v)
+            for _, v, _ in _assigns(ast.walk(nf))
+            if isinstance(v, (ast.List, ast.Tuple)) and v.elts and all(isinstance(e, ast.Constant) and isinstance(e.value, str) for e in v.elts)
+        ]
+        assert len(lits) == 1
+        emit("c10NormalFaceInverted", "List String", list(lits[0]), "Operation.get_normal_face: the literal list of sides it inverts")
+        ret = [st for st in nf.body if isinstance(st, ast.Return)][0]
+        emit("c10NormalFacePick", "String", ret.value.slice.func.attr, "Operation.get_normal_face returns face_list[np.<this>(dotps)]")
+        cs = _fn(Operation.get_closest_side)
+        ret = [st for st in cs.body if isinstance(st, ast.Return)][0]
+        emit("c10ClosestSidePick", "String", ret.value.slice.func.attr, "Operation.get_closest_side returns sides[np.<this>(centers)]")
 
-    # ---------------------------------------------------------------- Operation.edges: the three add_beam loops
-    ed = _fn(Operation.edges.fget)
-    loops = []
-    for st in ed.body:
-        if isinstance(st, ast.For):
-            what = _attr_path(st.iter.args[0])
-            call = st.body[0].value
-            assert call.func.attr == "add_beam"
-            n = 4
-            loops.append((what, [(int(_ev(call.args[0], {"i": i})), int(_ev(call.args[1], {"i": i}))) for i in range(n)]))
-    emit("c10OpEdges", "List (String × List (Nat × Nat))", loops, "Operation.edges: per loop the corner pairs `add_beam(<expr 1>, <expr 2>, data)` evaluated for i = 0..3")
+    emit.guard(normal_face)
 
-    # ---------------------------------------------------------------- guards (first `if …: raise`)
-    rng = list(range(-2, 11))
-    guards = []
-    for label, obj, var in (
-        ("Operation.add_side_edge", Operation.add_side_edge, "corner_idx"),
-        ("Face.add_edge", Face.add_edge, "corner"),
-        ("Face.project_edge", Face.project_edge, "corner"),
-        ("Operation.project_corner", Operation.project_corner, "corner"),
-    ):
-        test = _first_raise_guard(_fn(obj))
-        guards.append((label, [(c, bool(_ev(test, {var: c}))) for c in rng]))
-    emit("c10Guards", "List (String × List (Int × Bool))", guards, "the refusing guard of each method evaluated for corner = -2..10 (true = raises)")
-    test = _first_raise_guard(_fn(Operation.project_edge))
-    emit(
-        "c10ProjectEdgeGuard",
-        "List (Int × Int × Bool)",
-        [(a, b, bool(_ev(test, {"corner_1": a, "corner_2": b}))) for a in range(-1, 10) for b in range(-1, 10)],
-        "Operation.project_edge: its range guard for corner_1, corner_2 = -1..9 (true = raises)",
-    )
+    def connector() -> None:
+        ci = _fn(connector_mod.Connector.__init__)
+        inv = [list(ast.literal_eval(n.comparators[0])) for n in ast.walk(ci) if isinstance(n, ast.Compare) and isinstance(n.ops[0], ast.In)]
+        emit("c10ConnectorInverted", "List (List String)", inv, "Connector.__init__: the literal tuples `orient in (...)` of sides it inverts (operation 1, operation 2)")
+        sl = [n for n in ast.walk(ci) if isinstance(n, ast.Subscript) and isinstance(n.slice, ast.Slice)]
+        emit("c10ConnectorKeep", "Nat", int(ast.literal_eval(sl[0].slice.upper)), "Connector.__init__: all_pairs[:<this>] after sorting by distance")
 
-    # ---------------------------------------------------------------- project_corner: which point
-    pc = _fn(Operation.project_corner)
-    branch = [st for st in pc.body if isinstance(st, ast.If) and not any(isinstance(b, ast.Raise) for b in st.body)][0]
+    emit.guard(connector)
 
-    def point_of(stmts, c):
-        call = stmts[0].value  # self.<face>.points[<expr>].project(label)
-        sub = call.func.value
-        return _attr_path(sub.value), int(_ev(sub.slice, {"corner": c}))
+    def face_table_use() -> None:
+        uses = []
+        for label, obj in (("Operation.get_face", Operation.get_face), ("Side.__init__", Side.__init__)):
+            for n in ast.walk(_fn(obj)):
+                if isinstance(n, ast.Subscript) and isinstance(n.value, ast.Attribute) and isinstance(n.value.value, ast.Name) and n.value.value.id == "constants":
+                    uses.append((label, n.value.attr))
+        emit("c10FaceTableUse", "List (String × String)", uses, "the table of util.constants that Operation.get_face / items.side.Side index by side name")
 
-    tgt = []
-    for c in range(8):
-        face, idx = point_of(branch.body if _ev(branch.test, {"corner": c}) else branch.orelse, c)
-        tgt.append((c, face, idx))
-    emit("c10ProjectCorner", "List (Nat × String × Nat)", tgt, "Operation.project_corner: corner -> (point list, index) for corner = 0..7")
+    emit.guard(face_table_use)
 
-    # ---------------------------------------------------------------- get_patches_at_corner
-    gp = _fn(Operation.get_patches_at_corner)
-    first_if = [st for st in gp.body if isinstance(st, ast.If)][0]
-    idx_assign = _assign_to(gp.body, "index")
-    side_subs = [
-        st.value.args[0].slice
-        for st in gp.body
-        if isinstance(st, ast.Expr) and isinstance(st.value, ast.Call) and st.value.func.attr == "add" and isinstance(st.value.args[0], ast.Subscript)
-    ]
-    rows = []
-    for c in range(8):
-        stmts = first_if.body if _ev(first_if.test, {"corner": c}) else first_if.orelse
-        face = _attr_path(stmts[0].value.args[0])
-        index = _ev(idx_assign.value, {"corner": c})
-        rows.append((c, face, [int(_ev(s, {"index": index, "corner": c})) for s in side_subs]))
-    emit("c10PatchesAtCorner", "List (Nat × String × List Nat)", rows, "Operation.get_patches_at_corner: corner -> (face whose patch is taken, indexes into side_patches)")
+    def op_edges() -> None:
+        ed = _fn(Operation.edges.fget)
+        loops = []
+        for st in ed.body:
+            if isinstance(st, ast.For):
+                what = _attr_path(st.iter.args[0])
+                call = _body(st.body)[0].value
+                assert call.func.attr == "add_beam"
+                var = _loop_var(st)
+                loops.append((what, [(int(_ev(call.args[0], {var: i})), int(_ev(call.args[1], {var: i}))) for i in range(4)]))
+        emit("c10OpEdges", "List (String × List (Nat × Nat))", loops, "Operation.edges: per loop the corner pairs `add_beam(<expr 1>, <expr 2>, data)` evaluated for i = 0..3")
 
-    # ---------------------------------------------------------------- project_side: the statements, in order
-    ps = _fn(Operation.project_side)
-    i2 = _assign_to(ps.body, "index_2")
-    i1_src = _assign_to(ps.body, "index_1")
-    assert i1_src.value.func.attr == "get_index_from_side"
-    if_edges = [st for st in ps.body if isinstance(st, ast.If) and isinstance(st.test, ast.Name) and st.test.id == "edges"][0]
-    if_points = [st for st in ps.body if isinstance(st, ast.If) and isinstance(st.test, ast.Name) and st.test.id == "points"][0]
-    proj = [st for st in ps.body if isinstance(st, ast.Assign) and isinstance(st.targets[0], ast.Subscript)][0]
-    steps_e, steps_p, steps_f = [], [], []
-    for index_1 in range(4):
-        env = {"index_1": index_1}
-        env["index_2"] = _ev(i2.value, env)
-        steps_f.append((_attr_path(proj.targets[0].value), int(_ev(proj.targets[0].slice, env))))
-        row = []
-        for st in if_edges.body:
-            if isinstance(st, ast.Expr):  # a call
-                call = st.value
-                row.append((_attr_path(call.func), [int(_ev(a, env)) for a in call.args[:-1]]))
-            else:  # self.side_edges[x] = self._project_update(self.side_edges[x], label)
-                t = st.targets[0]
-                src = st.value.args[0]
-                assert _attr_path(src.value) == _attr_path(t.value)
-                row.append((_attr_path(t.value) + "=", [int(_ev(t.slice, env)), int(_ev(src.slice, env))]))
-        steps_e.append(row)
-        row = []
-        outer = if_points.body[0]
-        inner = outer.body[0]
-        for face in outer.iter.elts:
-            for pi in inner.iter.elts:
-                row.append((_attr_path(face) + ".points", [int(_ev(pi, env))]))
-        steps_p.append(row)
-    emit("c10ProjectSideFace", "List (String × Nat)", steps_f, "Operation.project_side: `self.side_projects[index_1] = label` for index_1 = 0..3")
-    emit("c10ProjectSideEdges", "List (List (String × List Nat))", steps_e, "Operation.project_side, `if edges:` — the statements in order with their index expressions evaluated, per index_1 = 0..3")
-    emit("c10ProjectSidePoints", "List (List (String × List Nat))", steps_p, "Operation.project_side, `if points:` — the projected points in loop order, per index_1 = 0..3")
+    emit.guard(op_edges)
 
-    # Face.project: `for i in range(4)` twice
-    fp = _fn(Face.project)
-    rows = []
-    for st in fp.body:
-        if isinstance(st, ast.If):
-            loop = st.body[0]
-            call = loop.body[0].value
-            rng4 = list(range(*[ast.literal_eval(a) for a in loop.iter.args]))
-            if call.func.attr == "project_edge":
-                rows.append((st.test.id, "project_edge", [int(_ev(call.args[0], {"i": i})) for i in rng4]))
-            else:
-                rows.append((st.test.id, _attr_path(call.func.value.value), [int(_ev(call.func.value.slice, {"i": i})) for i in rng4]))
-    emit("c10FaceProject", "List (String × String × List Nat)", rows, "Face.project: (flag, what, indexes in loop order)")
+    def guards() -> None:
+        rng = list(range(-2, 11))
+        rows = []
+        for label, obj in (
+            ("Operation.add_side_edge", Operation.add_side_edge),
+            ("Face.add_edge", Face.add_edge),
+            ("Face.project_edge", Face.project_edge),
+            ("Operation.project_corner", Operation.project_corner),
+        ):
+            fn = _fn(obj)
+            test = _first_raise_guard(fn)
+            rows.append((label, [(c, bool(_ev(test, {_param(fn, 1): c}))) for c in rng]))
+        emit("c10Guards", "List (String × List (Int × Bool))", rows, "the refusing guard of each method evaluated for corner = -2..10 (true = raises)")
+        fn = _fn(Operation.project_edge)
+        test = _first_raise_guard(fn)
+        emit(
+            "c10ProjectEdgeGuard",
+            "List (Int × Int × Bool)",
+            [(a, b, bool(_ev(test, {_param(fn, 1): a, _param(fn, 2): b}))) for a in range(-1, 10) for b in range(-1, 10)],
+            "Operation.project_edge: its range guard for corner_1, corner_2 = -1..9 (true = raises)",
+        )
 
-    # ---------------------------------------------------------------- Face.invert / shift / reorient literals
-    fi = _fn(Face.invert)
-    comp = [n for n in ast.walk(fi) if isinstance(n, ast.ListComp)][0]
-    emit("c10InvertIdx", "List Nat", list(ast.literal_eval(comp.generators[0].iter)), "Face.invert: edges = [edges[i] for i in <this>] after both lists were reversed")
-    emit(
-        "c10InvertStmts",
-        "List String",
-        [_attr_path(st.value.func) for st in fi.body if isinstance(st, ast.Expr) and isinstance(st.value, ast.Call)],
-        "Face.invert: the in-place calls in order",
-    )
-    fs = _fn(Face.shift)
-    prep = [st for st in fs.body if isinstance(st, (ast.Assign, ast.Expr)) and not (isinstance(st, ast.Expr) and isinstance(st.value, ast.Constant))][:2]
-    rows = []
-    for count in range(-9, 10):
-        env = {"collections": collections, "range": range, "count": count}
-        exec(compile(ast.Module(body=prep, type_ignores=[]), "<Face.shift>", "exec"), env)
-        rows.append((count, [int(x) for x in env["indexes"]]))
-    emit("c10ShiftIdx", "List (Int × List Nat)", rows, "Face.shift: `indexes` after `deque(range(4)).rotate(count)` for count = -9..9")
-    shifted = [_attr_path(st.targets[0]) for st in fs.body if isinstance(st, ast.Assign) and isinstance(st.value, ast.ListComp)]
-    emit("c10ShiftLists", "List String", shifted, "Face.shift: the lists re-indexed by `indexes`")
-    fr = _fn(Face.reorient)
-    call = [st.value for st in fr.body if isinstance(st, ast.Expr) and isinstance(st.value, ast.Call) and st.value.func.attr == "shift"][0]
-    emit(
-        "c10ReorientShift",
-        "List Int",
-        [int(_ev(call.args[0], {"indexes": [j, (j + 1) % 4, (j + 2) % 4, (j + 3) % 4]})) for j in range(4)],
-        "Face.reorient: the argument of self.shift(...) when the closest point has index j = 0..3",
-    )
+    emit.guard(guards)
 
-    # ---------------------------------------------------------------- tools.EdgeLocation.start_corner and the edge_map loop
-    rows = []
-    for c1 in range(8):
-        for c2 in range(8):
-            try:
-                rows.append((c1, c2, int(tools.EdgeLocation(c1, c2, "bottom").start_corner)))
-            except CornerPairError:
-                rows.append((c1, c2, -1))
-    emit("c10StartCorner", "List (Nat × Nat × Int)", rows, "EdgeLocation(c1, c2).start_corner for all 64 pairs (-1 = CornerPairError)")
+    def project_corner() -> None:
+        pc = _fn(Operation.project_corner)
+        corner = _param(pc, 1)
+        branch = [st for st in pc.body if isinstance(st, ast.If) and not any(isinstance(b, ast.Raise) for b in st.body)][0]
 
-    mod = ast.parse(inspect.getsource(tools))
-    loop = [st for st in mod.body if isinstance(st, ast.For)][0]
-    rows = []
-    for i in range(*[ast.literal_eval(a) for a in loop.iter.args]):
-        env: Dict[str, Any] = {"i": i, "SIDES_MAP": constants.SIDES_MAP}
-        for st in loop.body:
-            if isinstance(st, ast.Assign):
-                env[st.targets[0].id] = _ev(st.value, env)
-            elif isinstance(st, ast.Expr) and isinstance(st.value, ast.Call) and st.value.func.attr == "add_beam":
-                a, b, locn = st.value.args
-                assert locn.func.id == "EdgeLocation"
-                rows.append((int(_ev(a, env)), int(_ev(b, env)), int(_ev(locn.args[0], env)), int(_ev(locn.args[1], env)), str(_ev(locn.args[2], env))))
-    emit(
-        "c10EdgeMapInserts",
-        "List (Nat × Nat × Nat × Nat × String)",
-        rows,
-        "tools.py module loop: edge_map.add_beam(a, b, EdgeLocation(l1, l2, side)) in execution order",
-    )
-    emit("c10FrameValidPairs", "List (List Nat)", [sorted(p) for p in Frame.valid_pairs], "Frame.valid_pairs (sorted members)")
+        def point_of(stmts, c):
+            call = _body(stmts)[0].value  # self.<face>.points[<expr>].project(label)
+            sub = call.func.value
+            return _attr_path(sub.value), int(_ev(sub.slice, {corner: c}))
 
-    # ---------------------------------------------------------------- Revolve / Wedge
-    rv = _fn(Revolve.__init__)
-    loop = [st for st in rv.body if isinstance(st, ast.For)][0]
-    call = loop.body[0].value
-    assert call.func.attr == "add_side_edge"
-    emit(
-        "c10RevolveSideEdges",
-        "List (Nat × String)",
-        [(int(_ev(call.args[0], {"i": i})), _attr_path(call.args[1].func)) for i in range(*[ast.literal_eval(a) for a in loop.iter.args])],
-        "Revolve.__init__: add_side_edge(<index>, <edge data class>) in loop order",
-    )
-    wd = _fn(Wedge.__init__)
-    pats = []
-    for st in wd.body:
-        if isinstance(st, ast.Expr) and isinstance(st.value, ast.Call) and getattr(st.value.func, "attr", "") == "set_patch":
-            pats.append((ast.literal_eval(st.value.args[0]), ast.literal_eval(st.value.args[1])))
-    emit("c10WedgePatches", "List (String × String)", pats, "Wedge.__init__: set_patch(side, name) calls in order")
-    named = []
-    for label, obj in (("set_inner_patch", Wedge.set_inner_patch), ("set_outer_patch", Wedge.set_outer_patch)):
-        call = [st.value for st in _fn(obj).body if isinstance(st, ast.Expr) and isinstance(st.value, ast.Call)][0]
-        named.append((label, ast.literal_eval(call.args[0])))
-    emit("c10WedgeNamed", "List (String × String)", named, "Wedge.set_inner_patch / set_outer_patch: the side they address")
+        tgt = []
+        for c in range(8):
+            face, idx = point_of(branch.body if _ev(branch.test, {corner: c}) else branch.orelse, c)
+            tgt.append((c, face, idx))
+        emit("c10ProjectCorner", "List (Nat × String × Nat)", tgt, "Operation.project_corner: corner -> (point list, index) for corner = 0..7")
+
+    emit.guard(project_corner)
+
+    def patches_at_corner() -> None:
+        gp = _fn(Operation.get_patches_at_corner)
+        corner = _param(gp, 1)
+        first_if = [st for st in gp.body if isinstance(st, ast.If)][0]
+        # the local that holds `corner % 4`: the assignment of a `%` expression to a name
+        idx_t, idx_v, _ = [(t, v, s) for t, v, s in _assigns(gp.body) if isinstance(t, ast.Name) and isinstance(v, ast.BinOp) and isinstance(v.op, ast.Mod)][0]
+        side_subs = [
+            st.value.args[0].slice
+            for st in gp.body
+            if isinstance(st, ast.Expr) and isinstance(st.value, ast.Call) and getattr(st.value.func, "attr", "") == "add" and isinstance(st.value.args[0], ast.Subscript)
+        ]
+        rows = []
+        for c in range(8):
+            stmts = _body(first_if.body if _ev(first_if.test, {corner: c}) else first_if.orelse)
+            face = _attr_path(stmts[0].value.args[0])
+            index = _ev(idx_v, {corner: c})
+            rows.append((c, face, [int(_ev(s, {idx_t.id: index, corner: c})) for s in side_subs]))
+        emit("c10PatchesAtCorner", "List (Nat × String × List Nat)", rows, "Operation.get_patches_at_corner: corner -> (face whose patch is taken, indexes into side_patches)")
+
+    emit.guard(patches_at_corner)
+
+    def project_side() -> None:
+        ps = _fn(Operation.project_side)
+        p_edges, p_points = _param(ps, 3), _param(ps, 4)
+        names = [(t, v, s) for t, v, s in _assigns(ps.body) if isinstance(t, ast.Name)]
+        # index_1 = self.get_index_from_side(side); index_2 = <expression in index_1>
+        (t1, v1, _), (t2, v2, _) = names[0], names[1]
+        assert isinstance(v1, ast.Call) and v1.func.attr == "get_index_from_side"
+        n1, n2 = t1.id, t2.id
+        if_edges = [st for st in ps.body if isinstance(st, ast.If) and isinstance(st.test, ast.Name) and st.test.id == p_edges][0]
+        if_points = [st for st in ps.body if isinstance(st, ast.If) and isinstance(st.test, ast.Name) and st.test.id == p_points][0]
+        proj_t = [t for t, _, _ in _assigns(ps.body) if isinstance(t, ast.Subscript)][0]
+        steps_e, steps_p, steps_f = [], [], []
+        for index_1 in range(4):
+            env = {n1: index_1}
+            env[n2] = _ev(v2, env)
+            steps_f.append((_attr_path(proj_t.value), int(_ev(proj_t.slice, env))))
+            row = []
+            for st in _body(if_edges.body):
+                if isinstance(st, ast.Expr):  # a call; its last argument is the label
+                    call = st.value
+                    row.append((_attr_path(call.func), [int(_ev(a, env)) for a in call.args[:-1]]))
+                else:  # self.side_edges[x] = self._project_update(self.side_edges[x], label)
+                    t, v, _ = next(_assigns([st]))
+                    src = v.args[0]
+                    assert _attr_path(src.value) == _attr_path(t.value)
+                    row.append((_attr_path(t.value) + "=", [int(_ev(t.slice, env)), int(_ev(src.slice, env))]))
+            steps_e.append(row)
+            row = []
+            outer = _body(if_points.body)[0]
+            inner = _body(outer.body)[0]
+            for face in outer.iter.elts:
+                for pi in inner.iter.elts:
+                    row.append((_attr_path(face) + ".points", [int(_ev(pi, env))]))
+            steps_p.append(row)
+        emit("c10ProjectSideFace", "List (String × Nat)", steps_f, "Operation.project_side: `self.side_projects[index_1] = label` for index_1 = 0..3")
+        emit("c10ProjectSideEdges", "List (List (String × List Nat))", steps_e, "Operation.project_side, `if edges:` — the statements in order with their index expressions evaluated, per index_1 = 0..3")
+        emit("c10ProjectSidePoints", "List (List (String × List Nat))", steps_p, "Operation.project_side, `if points:` — the projected points in loop order, per index_1 = 0..3")
+
+    emit.guard(project_side)
+
+    def face_project() -> None:
+        fp = _fn(Face.project)
+        flags = {_param(fp, 2): "edges", _param(fp, 3): "points"}
+        rows = []
+        for st in fp.body:
+            if isinstance(st, ast.If):
+                loop = _body(st.body)[0]
+                call = _body(loop.body)[0].value
+                var = _loop_var(loop)
+                if call.func.attr == "project_edge":
+                    rows.append((flags[st.test.id], "project_edge", [int(_ev(call.args[0], {var: i})) for i in _range_of(loop)]))
+                else:
+                    rows.append((flags[st.test.id], _attr_path(call.func.value.value), [int(_ev(call.func.value.slice, {var: i})) for i in _range_of(loop)]))
+        emit("c10FaceProject", "List (String × String × List Nat)", rows, "Face.project: (flag, what, indexes in loop order)")
+
+    emit.guard(face_project)
+
+    def face_reindexing() -> None:
+        fi = _fn(Face.invert)
+        comp = [n for n in ast.walk(fi) if isinstance(n, ast.ListComp)][0]
+        emit("c10InvertIdx", "List Nat", list(ast.literal_eval(comp.generators[0].iter)), "Face.invert: edges = [edges[i] for i in <this>] after both lists were reversed")
+        emit(
+            "c10InvertStmts",
+            "List String",
+            [_attr_path(st.value.func) for st in _body(fi.body) if isinstance(st, ast.Expr) and isinstance(st.value, ast.Call)],
+            "Face.invert: the in-place calls in order",
+        )
+        fs = _fn(Face.shift)
+        count = _param(fs, 1)
+        stmts = _body(fs.body)
+        # `indexes = collections.deque(range(4))` then `indexes.rotate(count)`
+        t0, v0, _ = next(_assigns(stmts))
+        rot = [st for st in stmts if isinstance(st, ast.Expr) and isinstance(st.value, ast.Call) and getattr(st.value.func, "attr", "") == "rotate"][0]
+        prep = [ast.Assign(targets=[t0], value=v0, lineno=1, col_offset=0), rot]
+        rows = []
+        for c in range(-9, 10):
+            env = {"collections": collections, "range": range, count: c}
+            exec(compile(ast.fix_missing_locations(ast.Module(body=prep, type_ignores=[])), "<Face.shift>", "exec"), env)
+            rows.append((c, [int(x) for x in env[t0.id]]))
+        emit("c10ShiftIdx", "List (Int × List Nat)", rows, "Face.shift: `indexes` after `deque(range(4)).rotate(count)` for count = -9..9")
+        shifted = [_attr_path(t) for t, v, _ in _assigns(stmts) if isinstance(v, ast.ListComp)]
+        emit("c10ShiftLists", "List String", shifted, "Face.shift: the lists re-indexed by `indexes`")
+        fr = _fn(Face.reorient)
+        call = [st.value for st in fr.body if isinstance(st, ast.Expr) and isinstance(st.value, ast.Call) and getattr(st.value.func, "attr", "") == "shift"][0]
+        local = [n.id for n in ast.walk(call.args[0]) if isinstance(n, ast.Name)][0]
+        emit(
+            "c10ReorientShift",
+            "List Int",
+            [int(_ev(call.args[0], {local: [j, (j + 1) % 4, (j + 2) % 4, (j + 3) % 4]})) for j in range(4)],
+            "Face.reorient: the argument of self.shift(...) when the closest point has index j = 0..3",
+        )
+
+    emit.guard(face_reindexing)
+
+    def edge_map_loop() -> None:
+        mod = ast.parse(inspect.getsource(tools))
+        loop = [st for st in mod.body if isinstance(st, ast.For)][0]
+        var = _loop_var(loop)
+        rows = []
+        for i in _range_of(loop):
+            env: Dict[str, Any] = {var: i, "SIDES_MAP": constants.SIDES_MAP}
+            for st in _body(loop.body):
+                got = list(_assigns([st]))
+                if got and isinstance(got[0][0], ast.Name):
+                    env[got[0][0].id] = _ev(got[0][1], env)
+                elif isinstance(st, ast.Expr) and isinstance(st.value, ast.Call) and getattr(st.value.func, "attr", "") == "add_beam":
+                    a, b, locn = st.value.args
+                    assert locn.func.id == "EdgeLocation"
+                    rows.append((int(_ev(a, env)), int(_ev(b, env)), int(_ev(locn.args[0], env)), int(_ev(locn.args[1], env)), str(_ev(locn.args[2], env))))
+        emit(
+            "c10EdgeMapInserts",
+            "List (Nat × Nat × Nat × Nat × String)",
+            rows,
+            "tools.py module loop: edge_map.add_beam(a, b, EdgeLocation(l1, l2, side)) in execution order",
+        )
+
+    emit.guard(edge_map_loop)
+
+    def revolve_wedge() -> None:
+        rv = _fn(Revolve.__init__)
+        loop = [st for st in rv.body if isinstance(st, ast.For)][0]
+        call = _body(loop.body)[0].value
+        assert call.func.attr == "add_side_edge"
+        var = _loop_var(loop)
+        emit(
+            "c10RevolveSideEdges",
+            "List (Nat × String)",
+            [(int(_ev(call.args[0], {var: i})), "edges." + call.args[1].func.attr) for i in _range_of(loop)],
+            "Revolve.__init__: add_side_edge(<index>, <edge data class>) in loop order",
+        )
+        wd = _fn(Wedge.__init__)
+        pats = []
+        for st in wd.body:
+            if isinstance(st, ast.Expr) and isinstance(st.value, ast.Call) and getattr(st.value.func, "attr", "") == "set_patch":
+                pats.append((ast.literal_eval(st.value.args[0]), ast.literal_eval(st.value.args[1])))
+        emit("c10WedgePatches", "List (String × String)", pats, "Wedge.__init__: set_patch(side, name) calls in order")
+        named = []
+        for label, obj in (("set_inner_patch", Wedge.set_inner_patch), ("set_outer_patch", Wedge.set_outer_patch)):
+            call = [st.value for st in _body(_fn(obj).body) if isinstance(st, ast.Expr) and isinstance(st.value, ast.Call)][0]
+            named.append((label, ast.literal_eval(call.args[0])))
+        emit("c10WedgeNamed", "List (String × String)", named, "Wedge.set_inner_patch / set_outer_patch: the side they address")
+
+    emit.guard(revolve_wedge)
